@@ -16,6 +16,9 @@ reset function inside the library is) go through the tie above.  Category-keyed 
 answer depends on the CATEGORY handed over — its index, its weight `w`, the match value in `cache` — so two categories
 of one cluster get different verdicts for the same sample) are oracle-only: the three-way decision is evaluated per
 visited category with the reset function's own answers (the Lean model's veto table is indexed by cluster label).
+A third family, also oracle-only, is the RE-ENTRANT reset function (`gen_reenter`): it trains the very estimator whose
+step is still searching (nested partial_fit / step_fit of anchor rows), so a category can be added between the moment the
+step started and the moment it creates its own; the map clauses of the statement are checked at every quiescent point.
 """
 from __future__ import annotations
 
@@ -30,9 +33,11 @@ from ..common import f2hex, run_driver, parse_kv, parse_nats, parse_optnats, vec
 from ..impl import make, Recorder, StepRec, step_table, sorted_live, quiet, exc_enum, MODES, params_tree, DualVigilanceART
 
 RULE = ("cases = (base class, base hyper-parameters, rho_lower_bound, data set, match-tracking mode, epsilon, "
-        "veto table by cluster label, reset function keyed on the category (index / weight / match value) or none, call "
+        "veto table by cluster label, reset function keyed on the category (index / weight / match value), reset function that "
+        "re-enters the estimator (nested partial_fit/step_fit of anchor rows while a step is searching) or none, call "
         "history fit/partial_fit/predict/re-fit); a case is non-trivial when a step visited >= 2 categories, spawned a "
-        "category, met a veto, or two categories of one cluster got different verdicts; distinct by hash of all of these")
+        "category, met a veto, two categories of one cluster got different verdicts, or a nested call added a category "
+        "while the step was searching and the step then created one too; distinct by hash of all of these")
 
 SIG_F18 = "DualVigilanceART.step_fit:nonpositive-activation-not-visited"
 SIG_LOWERED = "DualVigilanceART.step_fit:reset+tracking:absorbed-below-configured-rho"
@@ -159,6 +164,227 @@ def judge(js, g, j, x, w, label, M):
     if kind == "weight-bytes":
         return _coin(js, g, w.tobytes())
     return _coin(js, g, struct.pack("<d", float(M)))
+
+
+# ---------------------------------------------------------------- reset functions that train the estimator (re-entrant)
+def gen_reenter(r, case):
+    """A caller-supplied reset function that RE-ENTERS the estimator being trained, as data.  While a step of
+    fit/partial_fit is still searching, the reset function replays stored anchor rows into the very same
+    DualVigilanceART (`dual.partial_fit(rows)` or `dual.step_fit(row)`: a "rehearsal" hook), so categories may be
+    added / weights changed under the feet of the running step, and then answers:
+    when     — 'upper-failed' (the examined category failed the upper test: cache['match_criterion_bin'] is False),
+               'every-call', 'first-call-of-step', 'coin' (fixed function of (step number, call number));
+    via/rows — nested call and rows per call (anchors are taken cyclically); budget = total nested calls;
+    nested_depth — 1: the nested call gets no reset function; 2: it gets this same function, which may re-enter once
+               more (that innermost call without a reset function);
+    answer   — always True, or a veto table indexed by (outermost step number, CLUSTER label)."""
+    cls, d, n = case["cls"], case["d"], len(case["X"])
+    m = r.randint(2, 8)
+    floats = r.random() < 0.25 and cls != "ART1"
+    A = specs.elem_data(r, cls, m, d, style=r.choice([None, None, "corners", "coarse"]), floats=floats)
+    plan = {"when": r.choice(["upper-failed", "upper-failed", "every-call", "first-call-of-step", "coin"]),
+            "p": r.choice([0.3, 0.5, 0.8]), "salt": r.getrandbits(32),
+            "via": r.choice(["partial_fit", "partial_fit", "step_fit"]), "rows": r.choice([1, 1, 1, 2]),
+            "nested_depth": r.choice([1, 1, 2]), "budget": r.choice([m, 2 * m, 4 * m]),
+            "answer": r.choice(["permit", "permit", "veto-table"]), "veto_by_cluster_label": None}
+    if plan["answer"] == "veto-table":
+        plan["veto_by_cluster_label"] = gen.veto_table(r, max(n, 1), n + 2)
+    return A, plan
+
+
+def run_reentrant(ctx, case, idx):
+    """Oracle-only (the Lean model has no notion of a reset function with side effects): the structural clauses of the
+    statement — map total, values exactly 0..n_clusters-1, a category never changes cluster, every returned / recorded /
+    predicted label is a cluster label, predict does not raise — executed at every quiescent point: after each nested
+    call returns, after each step returns, after each fit/partial_fit call returns."""
+    cov = ctx.cov
+    cls, mode, spec, lb, X, eps = (case[k] for k in ("cls", "mode", "spec", "lb", "X", "eps"))
+    A, plan = case["anchors"], case["reenter"]
+    rep = {"case": idx, "class": cls, "spec": spec, "rho_lower_bound": lb, "mode": mode, "eps": eps, "X": X,
+           "anchors": A, "reentrant_reset_function": dict(plan, doc=gen_reenter.__doc__),
+           "history": [(h[0], h[1] if h[0] == "pred" else [h[1], h[2]]) for h in case["hist"]]}
+    key = ("reenter", cls, spec, lb, X.tolist(), A.tolist(), mode, eps, plan,
+           [(h[0], np.asarray(h[1]).tolist()) if h[0] == "pred" else h for h in case["hist"]])
+    PRE = "DualVigilanceART.step_fit:reentrant-reset:"
+    try:
+        with quiet():
+            base = make(spec)
+            dual = DualVigilanceART(base, lb)
+    except Exception as e:
+        ctx.issue("violation", f"DualVigilanceART.__init__:{cls}:{exc_enum(e)}",
+                  f"constructor raised {e!r} for rho={spec['rho']} > rho_lower_bound={lb} >= 0", rep)
+        cov.case(key, False)
+        return
+    st = {"g": -1, "k": 0, "calls": 0, "next": 0, "stack": [], "known": {}, "bad": False, "target": False,
+          "nested": 0, "seen": []}
+    vt = plan["veto_by_cluster_label"]
+
+    def nW():
+        return len(base.W) if "W" in base.__dict__ else 0
+
+    def quiescent(where, ret=None, x=None):
+        """the map clauses of the statement, at a moment when no step of this nesting level or deeper is running"""
+        n, cmap = nW(), dict(dual.map)
+        srep = dict(rep, where=where, outermost_step=st["g"], nested_calls_so_far=st["calls"], map=cmap, n_categories=n)
+        if x is not None:
+            srep["x"] = np.array(x, dtype=float)
+        ok = True
+        if n > 0 and sorted(cmap) != list(range(n)):
+            missing, extra = sorted(set(range(n)) - set(cmap)), sorted(set(cmap) - set(range(n)))
+            ctx.issue("violation", PRE + "map-not-total",
+                      f"{where}: {n} categories, map keys {sorted(cmap)}: categories without a cluster {missing}, "
+                      f"keys that are no category {extra}", srep)
+            ok = False
+        vals = sorted(set(cmap.values()))
+        if n > 0 and (vals != list(range(len(vals))) or len(vals) != dual.n_clusters):
+            ctx.issue("violation", PRE + "map-values-not-contiguous",
+                      f"{where}: map values {vals}, n_clusters {dual.n_clusters}", srep)
+            ok = False
+        moved = {c: (v, cmap.get(c)) for c, v in st["known"].items() if c in cmap and cmap[c] != v}
+        if moved:
+            ctx.issue("violation", PRE + "map-entry-changed",
+                      f"{where}: categories changed cluster (category: before, after) {moved}", srep)
+            ok = False
+        if ret is not None and int(ret) not in vals:
+            ctx.issue("violation", PRE + "label-not-a-cluster",
+                      f"{where}: the step returned {int(ret)}, map values {vals}", srep)
+            ok = False
+        if ok:
+            st["known"] = cmap
+        else:
+            st["bad"] = True
+        return ok
+
+    inner = dual.step_fit
+
+    def framed(x, *a, **kw):
+        depth = len(st["stack"])
+        if depth == 0:
+            st["g"] += 1
+            st["k"] = 0
+            if nW() == 0:
+                st["known"] = {}        # a fresh fit
+        fr = {"n0": nW(), "added": 0}
+        st["stack"].append(fr)
+        try:
+            c = inner(x, *a, **kw)
+        finally:
+            st["stack"].pop()
+        created = nW() - fr["n0"] - fr["added"]
+        if fr["added"] > 0:
+            cov.hit("reentrant-reset:category-added-while-step-was-searching")
+            if created == 1:
+                st["target"] = True
+                cov.hit("reentrant-reset:category-added-while-searching-then-step-created-one")
+            elif created == 0:
+                cov.hit("reentrant-reset:category-added-while-searching-then-step-absorbed")
+        if not st["bad"]:
+            quiescent(f"after step {st['g']} returned" + (f" (nesting depth {depth})" if depth else ""), ret=c, x=x)
+        return c
+    object.__setattr__(dual, "step_fit", framed)
+
+    def trigger(g, k, cache):
+        w = plan["when"]
+        if w == "upper-failed":
+            return not cache.get("match_criterion_bin", True)
+        if w == "every-call":
+            return True
+        if w == "first-call-of-step":
+            return k == 0
+        h = hashlib.blake2b(struct.pack("<IQQ", plan["salt"], g, k), digest_size=4).digest()
+        return int.from_bytes(h, "big") / 2.0 ** 32 < plan["p"]
+
+    def reenter(i_, w_, c_, params, cache):
+        depth = len(st["stack"])           # >= 1: asked from inside a running step
+        g, k = st["g"], st["k"]
+        st["k"] += 1
+        if (not st["bad"] and st["calls"] < plan["budget"] and depth <= plan["nested_depth"]
+                and trigger(g, k, cache)):
+            st["calls"] += 1
+            rows = A[[(st["next"] + t) % len(A) for t in range(plan["rows"])]]
+            st["next"] += plan["rows"]
+            st["seen"].append(rows)
+            n0 = nW()
+            again = reenter if depth < plan["nested_depth"] else None
+            if plan["via"] == "partial_fit":
+                dual.partial_fit(rows, match_reset_func=again, match_tracking=mode, epsilon=eps)
+            else:
+                for row in rows:
+                    dual.step_fit(row, match_reset_func=again, match_tracking=mode, epsilon=eps)
+            st["stack"][-1]["added"] += nW() - n0
+            st["nested"] += 1
+            if depth >= 2:
+                cov.hit("reentrant-reset:nested-twice")
+            if not st["bad"]:
+                quiescent(f"step {g}, after the nested {plan['via']} call number {st['calls']} returned "
+                          f"(nesting depth {depth})")
+        if vt is None:
+            return True
+        row = vt[g % len(vt)]
+        return not row[int(c_) % len(row)]
+
+    seen_outer = []
+    for h in case["hist"]:
+        if st["bad"]:
+            break
+        if h[0] == "pred":
+            P = h[1]
+        else:
+            kind, a, b = h
+            if b == a:
+                continue
+            B = X[a:b]
+            try:
+                with quiet():
+                    if kind == "fit":
+                        dual.fit(B, match_reset_func=reenter, match_tracking=mode, epsilon=eps)
+                        seen_outer = []
+                    else:
+                        dual.partial_fit(B, match_reset_func=reenter, match_tracking=mode, epsilon=eps)
+            except Exception as e:
+                st["stack"].clear()
+                if not st["bad"]:
+                    ctx.issue("violation", f"DualVigilanceART.{kind}:reentrant-reset:{cls}:{exc_enum(e)}",
+                              f"training raised {e!r} on validated data with a reset function that replays anchor rows "
+                              f"into the estimator (mode {mode}; map {dict(dual.map)}, {nW()} categories)",
+                              dict(rep, outermost_step=st["g"], nested_calls_so_far=st["calls"]))
+                st["bad"] = True
+                break
+            seen_outer.append(B)
+            if st["bad"] or not quiescent(f"after {kind} on rows {a}..{b} returned"):
+                break
+            vals = set(dual.map.values())
+            lab = [int(t) for t in dual.labels_]
+            if any(t not in vals for t in lab):
+                ctx.issue("violation", f"DualVigilanceART.{kind}:reentrant-reset:label-not-a-cluster",
+                          f"labels_ {lab}, map values {sorted(vals)}", rep)
+            cov.hit("reentrant-reset:outer:" + kind)
+            P = np.vstack(seen_outer + st["seen"])
+        if nW() == 0:
+            continue
+        try:
+            with quiet():
+                y = [int(t) for t in dual.predict(P)]
+        except Exception as e:
+            ctx.issue("violation", f"DualVigilanceART.predict:reentrant-reset:{cls}:{exc_enum(e)}",
+                      f"predict raised {e!r} after training with a reset function that replays anchor rows into the "
+                      f"estimator (map {dict(dual.map)}, {nW()} categories)", dict(rep, predict_on=P))
+            break
+        vals = set(dual.map.values())
+        if any(t not in vals or not (0 <= t < dual.n_clusters) for t in y):
+            ctx.issue("violation", "DualVigilanceART.predict:reentrant-reset:label-out-of-range",
+                      f"predicted {y}, map values {sorted(vals)}, n_clusters {dual.n_clusters}", dict(rep, predict_on=P))
+        cov.hit("reentrant-reset:predict")
+    dual.__dict__.pop("step_fit", None)
+    cov.case(key, st["target"])
+    cov.hit("reentrant-reset")
+    if st["nested"]:
+        cov.hit("reentrant-reset:nested-call-made")
+        cov.hit("reentrant-reset:when:" + plan["when"])
+        cov.hit("reentrant-reset:via:" + plan["via"])
+        cov.hit("reentrant-reset:answer:" + plan["answer"])
+        cov.hit("reentrant-reset:mode:" + mode)
+        cov.hit("reentrant-reset:class:" + cls)
 
 
 def split_mseq(st, has_reset):
@@ -716,6 +942,13 @@ def run(ctx):
         case["vt"] = None
         case["judge"] = gen_judge(r, n, n + 2)
         run_case(ctx, case, 2 * 10 ** 6 + i, lines, expect)
+    # reset functions that re-enter the estimator being trained (oracle-only, see run_reentrant)
+    for i in range(ctx.scale(240, 1200)):
+        r = gen.rng_for(ctx.seed, "C13-reentrant-reset", i)
+        case = gen_case(r, i, nmax, ctx.thorough)
+        case["vt"] = None
+        case["anchors"], case["reenter"] = gen_reenter(r, case)
+        run_reentrant(ctx, case, 3 * 10 ** 6 + i)
     outs = run_driver(lines)
     for line, out, (rep, exp_out, cls) in zip(lines, outs, expect):
         compare(ctx, rep, exp_out, out, cls, line)
